@@ -155,6 +155,33 @@ def leanchecker(pid):
     return ok, log[-2000:]
 
 
+FINGERPRINT = os.path.join(VERIF, "source_fingerprint.json")
+
+
+def source_fingerprint():
+    """sha256 of every source file of the two crates (what the model was last validated against in depth)"""
+    import glob
+    out = {}
+    for pat in ("slinky/src/*.rs", "slinky-cli/src/*.rs", "slinky/Cargo.toml", "slinky-cli/Cargo.toml", "Cargo.toml", "Cargo.lock"):
+        for f in sorted(glob.glob(os.path.join("/repo", pat))):
+            try:
+                out[os.path.relpath(f, "/repo")] = hashlib.sha256(open(f, "rb").read()).hexdigest()
+            except OSError:
+                out[os.path.relpath(f, "/repo")] = "unreadable"
+    return out
+
+
+def source_changed():
+    """the files of /repo's working tree that differ from the recorded fingerprint (the tree every thorough tier
+    was last run on). A changed source makes the quick tier run a deeper case stream (`./check`: escalation)."""
+    try:
+        rec = json.load(open(FINGERPRINT))["files"]
+    except (OSError, ValueError, KeyError):
+        return ["<no fingerprint recorded>"]
+    now = source_fingerprint()
+    return sorted(k for k in set(rec) | set(now) if rec.get(k) != now.get(k))
+
+
 def case_hash(obj):
     return hashlib.sha256(json.dumps(obj, sort_keys=True, default=str).encode()).hexdigest()[:16]
 
